@@ -129,6 +129,14 @@ def inlinable(facts, caller, t, stack, mode='all'):
         return None
     same_type = h.impl_adt is not None and h.impl_adt == caller.impl_adt
     same_module_free = h.kind == 'fn' and caller.kind in ('fn', 'closure') and module_of(h.path) == module_of(caller.root or caller.path)
+    # a private `fn pred(&self) -> bool` of a sibling type of the same module (`SideReceiver::has_cached_items` used by
+    # `BinaryStartReceiver::select`): a named sub-condition.  Only helpers that no rule names are expanded (a rule that speaks about
+    # `cache_finished()` keeps seeing that call).
+    sibling_pred = (h.impl_adt is not None and caller.impl_adt is not None and h.impl_adt != caller.impl_adt and not h.is_pub
+                    and module_of(h.impl_adt) == module_of(caller.impl_adt) and h.locals[0]['ty'] == 'bool' and takes_self(h)
+                    and h.argc == 1 and h.name not in anchored_names() and module_private(facts, h))
+    if sibling_pred:
+        return h
     # a private inherent method called from a closure of a method of the same type
     if not (same_type or same_module_free):
         return None
@@ -139,6 +147,41 @@ def inlinable(facts, caller, t, stack, mode='all'):
     if not effectively_private(facts, h):
         return None
     return h
+
+
+_ANCH = None
+
+
+def anchored_names():
+    """identifiers that occur in the rule sources: helpers with such a name are what some rule talks about and stay calls"""
+    global _ANCH
+    if _ANCH is None:
+        import os
+        import re
+        d = os.path.join(os.path.dirname(os.path.abspath(__file__)), 'rules')
+        names = set()
+        for fnm in os.listdir(d):
+            if fnm.endswith('.py'):
+                names |= set(re.findall(r'[A-Za-z_][A-Za-z0-9_]*', open(os.path.join(d, fnm)).read()))
+        _ANCH = names
+    return _ANCH
+
+
+def module_private(facts, h):
+    """every caller of the method lives in the module that defines its type"""
+    mod = module_of(h.impl_adt)
+    callers = facts.callers().get(h.path, [])
+    if not callers:
+        return False
+    for (g, _b) in callers:
+        root = g
+        if g.kind == 'closure':
+            l = facts.by_path.get(g.root)
+            root = l[0] if l else g
+        where = root.impl_adt or root.path
+        if module_of(where) != mod:
+            return False
+    return True
 
 
 def effectively_private(facts, h):
